@@ -3,7 +3,7 @@
    Histories are lists of lop of ANY length, the limit is ANY integer >= 1, any number of blocked producers and waiting
    consumers.  `lq_reach limit ops` is the state of the transcription of limited_queue<T> (as repaired by fa14f83) after
    the history; `lgood` is the invariant every destruction-free history establishes (c10_invariant_reachable). *)
-From Cocls Require Import Base BaseProofs QueueDefs QueueProofs QueueConcProofs.
+From Cocls Require Import Base BaseProofs QueueDefs QueueProofs QueueConcProofs QueueOrderProofs.
 Local Open Scope Z_scope.
 
 (* refinement: for every history whose constructor calls ask for limit >= 1 the model's observations are those of the
@@ -105,6 +105,28 @@ Theorem c10_conc_conservation : forall limit thrs s, 1 <= limit -> Forall t_fres
   (t_items s = [] \/ t_waiters s = []).
 Proof. intros limit thrs s L. exact (tq_conservation (Some limit) thrs s L). Qed.
 Print Assumptions c10_conc_conservation.
+
+(* per-producer order at every consumer, for every schedule: among the items consumer c has received (got c s, in the
+   order it received them), those pushed by producer p carry strictly increasing push indices *)
+Theorem c10_conc_per_producer_order : forall limit thrs s c p, (1 <= limit)%Z -> Forall t_fresh thrs -> t_reachable (Some limit) thrs s ->
+  Sorted.StronglySorted lt (map it_k (filter (of_p p) (got c s))).
+Proof. intros limit thrs s c p L. exact (tq_per_producer_order (Some limit) thrs s c p L). Qed.
+Print Assumptions c10_conc_per_producer_order.
+
+(* items are matched to pops in critical-section order, which is a prefix of the push order; what a consumer has
+   received plus what is in flight for it is exactly its share of that matching, in order (single consumer: FIFO) *)
+Theorem c10_conc_assignment_prefix : forall limit thrs s, (1 <= limit)%Z -> Forall t_fresh thrs -> t_reachable (Some limit) thrs s ->
+  t_plog s = map snd (t_alog s) ++ t_items s ++ map fst (t_blocked s) /\
+  forall c, map snd (filter (is_c c) (t_alog s)) = got c s ++ map snd (filter (is_c c) (iitems (t_infl s))).
+Proof. intros limit thrs s L. exact (tq_assignment_is_push_prefix (Some limit) thrs s L). Qed.
+Print Assumptions c10_conc_assignment_prefix.
+
+Example c10_conc_nonvacuous :
+  let thrs := flat_map t_decode_thr [[1; 101; 102; 103]; [2; 3]]%Z in
+  let s := fst (t_run_sched 3 (t_init (Some 1%Z) thrs) [0; 0; 0]%Z []) in
+  Forall t_fresh thrs /\ t_reachable (Some 1%Z) thrs s /\
+  map it_v (t_items s) = [101]%Z /\ map (fun b => it_v (fst b)) (t_blocked s) = [102]%Z.
+Proof. split; [apply t_decode_fresh|]. split; [eexists; eexists; eexists; reflexivity|]. vm_compute. repeat split. Qed.
 
 (* non-vacuity: limit 2, four pushes (two blocked), unblock_push withdraws 13, a pop delivers 11 and admits 14 *)
 Example c10_nonvacuous :
